@@ -17,6 +17,14 @@ def configs(rng, tier):
                 item = "impl A {\n %s\n pub fn inc(&mut self) {}\n pub fn get(&self) -> u8 { 0 }\n}" % ct
                 cs.append({"kind": "actor", "lib": lib, "attr": gen_impl.actor_attr(lib, ch), "item": item, "nmodels": 1,
                            "label": "ctor lib=%s ch=%s %s" % (lib, ch, ct[:40]), "cfg": (lib, ch, ct)})
+    # constructor parameters named like the identifiers the generated constructor binds itself
+    for lib in gen_impl.LIBS:
+        for debut in (False, True):
+            for ct in ("pub fn new(debut: std::time::SystemTime, v: u8) -> Self { todo!() }", "pub fn new(sender: u8, receiver: String) -> Self { todo!() }",
+                       "pub fn try_new(name: String, debut: std::time::SystemTime) -> Result<Self, String> { todo!() }"):
+                item = "impl A {\n %s\n pub fn inc(&mut self) {}\n pub fn get(&self) -> u8 { 0 }\n}" % ct
+                cs.append({"kind": "actor", "lib": lib, "attr": gen_impl.actor_attr(lib, None, debut=debut), "item": item, "nmodels": 1,
+                           "label": "ctorname lib=%s debut=%s %s" % (lib, debut, ct[:34]), "cfg": (lib, debut, ct)})
     # self-consuming methods: the loop may also end by a hand-over, which must happen for a sole owner only
     for lib in gen_impl.LIBS:
         for debut in (False, True):
@@ -33,7 +41,30 @@ def run(rep):
     rng = random.Random(rep.seed)
     rep.extra["rule"] = ("instances = real expansions over constructor shapes (Self / actor type / Option / Result under plain and qualified paths) x lib x channel; "
                          "probe = queued calls behind a parked actor, all handles dropped, then release; non-trivial = distinct (lib, channel, constructor) classes")
+    def ctor_shadow(c, j):
+        """a generated statement placed before the call of the user's constructor re-binds one of the constructor's own arguments"""
+        try:
+            mdl = c["ex"]["models"][j]
+            ct = [m["body_ir"][1] for m in mdl["methods"] if m["body_ir"][0] == "BCtor"][0]
+        except Exception:
+            return None
+        if not ct.get("user_call") or "user" not in ct.get("order", []):
+            return None
+        before = ct["order"][:ct["order"].index("user")]
+        binders = set()
+        if "debut" in before and ct.get("debut_call"):
+            binders.add(ct["debut_call"][0])
+        if "chan" in before and ct.get("chan_binds"):
+            binders.update(ct["chan_binds"])
+        hit = sorted(binders & set(a[1] for a in ct["user_call"]["args"] if a[0] == "SVar"))
+        return (hit, ct["order"]) if hit else None
+
     def per_model(rep, c, j, r):
+        sh = ctor_shadow(c, j)
+        if sh is not None:
+            rep.oblige(False)
+            return {"what": "the user's constructor is not called with the given arguments: the generated constructor re-binds %s before it calls `%s` "
+                            "(statement order %s), so the caller's value never reaches the user's constructor" % (sh[0], "new / try_new", sh[1])}
         # C04_stopped_only_by_sole_owner / C04_not_clonable_handles_never_grow need the guard or a non-clonable handle
         if rep.oblige(r["sole"] == "true"):
             return True
